@@ -112,7 +112,7 @@ def jobs(tier, seed, excluded=()):
     if tier == "quick":
         nfree, npairs, maxcrash, tmo = 4, 3, 9, 200
     else:
-        nfree, npairs, maxcrash, tmo = 60, 12, 16, 500
+        nfree, npairs, maxcrash, tmo = 8, 12, 12, 300
         cfgs += [("T03", None, False), ("T07", None, False), ("T13", None, True), ("T03", "T03:mut:addopt", False), ("T06", None, False)]
     out = []
     for tid, new, ren in cfgs:
